@@ -20,3 +20,4 @@ import IrisVerif.Props.C14
 import IrisVerif.Props.C04
 import IrisVerif.Props.C18
 import IrisVerif.Props.C15
+import IrisVerif.Props.C13
